@@ -23,7 +23,8 @@ RULE = ("datasets: every point sequence over {0..3} of length 4 plus fixed 5-(th
         "unsupervised (all k ranges <= 2); oracle: the file-fed and the feature-fed model have "
         "identical node state, conquest order, best_k, n_clusters and predictions (bit-exact), "
         "and get_distances() equals the metric on every ordered pair (min-max rescaled when "
-        "normalize=True). Non-trivial = the train index set is not the identity prefix "
+        "normalize=True); datasets in Fortran order / as transposed views; models fitted on the whole file, "
+        "where get_distances(normalize=True) must not disturb later calls. Non-trivial = the train index set is not the identity prefix "
         "(index arrays really select/reorder rows)")
 ASSUMPTIONS = [
     "quick runs 8 representative metrics (incl. asymmetric and decorated ones), thorough all 47",
